@@ -160,7 +160,7 @@ def _shapes(algo):
         for sname, data in shapes.items():
             for kind in ("str", "buffered"):
                 n += 1
-                pid = "shape:%d:%s:%s" % (blk, sname, kind)
+                pid = "shape:%d:%s:%s" % (blk, sname.replace(" ", "_"), kind)
                 path = os.path.join(common.scratch(), "c01_shape_%s_%d_%s.bin" % (hl, blk, sname.replace(" ", "_")))
                 with open(path, "wb") as f:
                     f.write(data)
